@@ -26,10 +26,10 @@ def generate(tier, seed):
     for name in sources.MULTICONF:
         for o in ("none", "-d", "params"):
             cases.append({"kind": "file", "file": name, "optset": o, "seed": "%d:%s:%s" % (seed, name, o), "cost": 2})
-    ncut = 500 if tier == "quick" else 4000
+    ncut = 500 if tier == "quick" else 20000
     for k in range(ncut):
         cases.append({"kind": "cutout", "seed": "%d:cut:%d" % (seed, k), "cost": 8})
-    nmm = 60 if tier == "quick" else 400
+    nmm = 60 if tier == "quick" else 2000
     for k in range(nmm):
         cases.append({"kind": "multimodel", "seed": "%d:mm:%d" % (seed, k), "cost": 15})
     return cases
